@@ -31,11 +31,14 @@ def log(*a):
 # ------------------------------------------------------------------------------------------------
 # builds
 
-def cargo_build(package, release=False, features=None, no_default=False, extra_env=None, cwd=HARNESS,
+def cargo_build(package, release=False, features=None, no_default=False, extra_env=None, cwd=None,
                 target_dir=None, bin_name=None, infra=True):
     """Build a harness package against /repo's working tree; -> path of the binary.
     A failure raises Inconclusive (infra=True) or returns (None, stderr) (infra=False)."""
-    cmd = ['cargo', 'build', '--offline', '-p', package]
+    # every driver crate is a standalone package (own [workspace] table and Cargo.lock) under harness/;
+    # the shared target dir comes from harness/.cargo/config.toml
+    cwd = cwd or os.path.join(HARNESS, package)
+    cmd = ['cargo', 'build', '--offline']
     if release:
         cmd.append('--release')
     if no_default:
